@@ -156,15 +156,16 @@ RefOK(Snew, Rnew, o, e) ==
     /\ o.rep.t = "down" \/ o.lk = e.lk
 
 \* a step that goes through the core with request r
-CoreStep(r) ==
-  LET res == Result(S, r, R.nacq + 1)
-      o   == [rep |-> res.rep, ev |-> res.ev, ls |-> res.ls, lk |-> res.lk]
+\* res: what the implementation-shaped layer does with request r (possibly with a follow-up of the session layer)
+CoreStepWith(res, r) ==
+  LET o   == [rep |-> res.rep, ev |-> res.ev, ls |-> res.ls, lk |-> res.lk]
       rs  == RefStep(R, r, o)
       Rn  == Overlay(Feed(rs.R, o, r), res.s)
   IN /\ S' = res.s /\ out' = o /\ R' = Rn /\ exp' = rs.exp /\ act' = r
      /\ DeliverOK(S, res.s, o) /\ cons' = NewCons(S, res.s, o)
      /\ outc' = NewOutc(o)
      /\ RefOK(res.s, Rn, o, rs.exp)
+CoreStep(r) == CoreStepWith(Result(S, r, R.nacq + 1), r)
 
 StepSess(s) ==
   /\ pos[s] <= Len(Log(s))
@@ -175,7 +176,13 @@ StepSess(s) ==
      /\ sc' = sc
      /\ IF j.op = "open" THEN
           \* the server registered the connection and said Welcome
-          /\ CoreStep([op |-> "connect", c |-> ClientOf(s), proto |-> "UNIX", addr |-> "j:null"])
+          \* (the client library switches to protocol version 1 as part of its connect: field `switched`)
+          /\ LET rq == [op |-> "connect", c |-> ClientOf(s), proto |-> "UNIX", addr |-> "j:null"]
+                 r1 == Result(S, rq, R.nacq + 1)
+                 r2 == IF ExtMon /\ Has(j, "switched") /\ r1.rep = Ok
+                         THEN [Then(r1, DoSet(r1.s, ClientKey(ClientOf(s), "protocolVersion"), NumT(j.switched), INT, TRUE)) EXCEPT !.rep = Ok]
+                         ELSE r1
+             IN CoreStepWith(r2, rq)
           /\ out'.rep = Ok
           /\ ss' = [ss EXCEPT ![ClientOf(s)] = [proto |-> 1, auth |-> NoAuth, open |-> TRUE]]
           /\ UNCHANGED acq
